@@ -189,6 +189,13 @@ func (vm *VM) FindElement(name *IDName) (Element, error) {
 	// then look for local values
 	elem := vm.getCurrentScope().GetValue(nameStr)
 	if elem == nil {
+		// a method of an imported module runs after the body of its module has ended and that body's
+		// scope is closed: the module's own methods and types stay reachable through its export table
+		if module := vm.GetCurrentModule(); module != nil {
+			if exported, ok := module.exportValues[nameStr]; ok {
+				return exported, nil
+			}
+		}
 		return nil, zerr.NameNotDefined(nameStr)
 	}
 	return elem, nil
@@ -203,6 +210,12 @@ func (vm *VM) FindElementWithModule(name *IDName) (Element, *Module, error) {
 	// then look for local values
 	elem, moduleID := vm.getCurrentScope().GetValueWithModuleID(nameStr)
 	if elem == nil {
+		// see FindElement: the current module's own methods and types
+		if module := vm.GetCurrentModule(); module != nil {
+			if exported, ok := module.exportValues[nameStr]; ok {
+				return exported, module, nil
+			}
+		}
 		return nil, nil, zerr.NameNotDefined(nameStr)
 	}
 
